@@ -622,6 +622,11 @@ impl ConfigState {
     /// minimum.
     fn update_http_listener(&mut self, patch: &UpdateHttpListenerConfig) -> Result<(), StateError> {
         validate_h2_flood_knobs_http(patch)?;
+        // validate every field before the first assignment: a rejected patch
+        // must not leave its earlier fields applied
+        if let Some(ref v) = patch.sozu_id_header {
+            validate_sozu_id_header(v)?;
+        }
 
         let address: SocketAddr = patch.address.into();
         let listener =
@@ -731,6 +736,14 @@ impl ConfigState {
         patch: &UpdateHttpsListenerConfig,
     ) -> Result<(), StateError> {
         validate_h2_flood_knobs_https(patch)?;
+        // validate every field before the first assignment: a rejected patch
+        // must not leave its earlier fields applied
+        if let Some(ref alpn_wrapper) = patch.alpn_protocols {
+            validate_alpn_protocols(&alpn_wrapper.values)?;
+        }
+        if let Some(ref v) = patch.sozu_id_header {
+            validate_sozu_id_header(v)?;
+        }
 
         let address: SocketAddr = patch.address.into();
         let listener =
